@@ -14,12 +14,12 @@ func init() {
 		Meta: propMeta{Level: "other", Assumptions: commonAssumptions,
 			Explanation: "Decides on every CFG path: C12.accept (core.fastForward mutates core/hashgraph state only after CheckBlock returned nil and the frame hash equals the block's frame hash; the peer set hashed against the block's PeersHash derives from frame.Peers), " +
 				"C12.check (CheckBlock returns nil only under peer-set-hash equality and count > TrustCount; the counter is incremented only for members whose signature verifies against this block), " +
-				"C12.distinct (one signer, one vote: the counter iterates the trusted set or is guarded by a seen-set keyed by the canonical identity), C12.app (the application is restored only after core.fastForward accepted). " +
+				"C12.distinct (one signer, one vote: the counter iterates the trusted set or is guarded by a seen-set keyed by the canonical identity), C12.digest (the two digests the acceptance test compares bind the WHOLE frame and the WHOLE block body: Frame.Hash / BlockBody.Hash are SHA256 of Marshal() of the receiver itself, Marshal encodes the receiver, no exported field is hidden by a struct tag — a section left out of the frame hash, e.g. PeerSets, could be rewritten by the responder), C12.app (the application is restored only after core.fastForward accepted). " +
 				"NOT decided: that every single-field tampering is refused as a statement over values (collision resistance of SHA-256 plus the two equalities)."},
 		Rules: []ruleFunc{c12accept, c12check, c12app, func(p *Prog, r *Report) {
 			r.Rule("C12.verify", 1, "Block.Verify returns true only through keys.Verify over Body.Hash() with the signer's key and this signature")
 			verifyProvenance(p, r, "C12.verify", []string{"Block"})
-		}},
+		}, func(p *Prog, r *Report) { digestRule(p, r, "C12.digest", []string{"Frame", "BlockBody"}) }},
 	})
 	register(&propDef{
 		ID: "C14", NeedCG: true,
@@ -415,4 +415,136 @@ func c14source(p *Prog, r *Report) {
 		ok := depOnCall(argN(c, 0), named(NODE+".Node.getBestFastForwardResponse")) && depOnCall(argN(c, 1), named(NODE+".Node.getBestFastForwardResponse"))
 		r.Check(ok, rule, "Node.fastForward:adopts-best-response", p.ipos(c), fnName(nf), "block and frame handed to the core are the selected answer's", "core.fastForward is given a block/frame that is not the selected peer answer")
 	}
+}
+
+// digestRule: a digest that a signature / an equality test relies on must cover the WHOLE value:
+// T.Hash() hashes exactly the bytes of T.Marshal() called on the receiver itself (not on a partial
+// copy), T.Marshal() encodes the receiver itself, and no field of T is hidden from the encoder.
+func digestRule(p *Prog, r *Report, rule string, typesList []string) {
+	r.Rule(rule, len(typesList), "T.Hash() = SHA256(T.Marshal()) of the receiver itself; T.Marshal() encodes the receiver; no field of T hidden from the encoder")
+	for _, tn := range typesList {
+		hash := p.Func(HG, tn, "Hash")
+		marsh := p.Func(HG, tn, "Marshal")
+		if hash == nil || marsh == nil {
+			r.Anchor(rule, "hashgraph."+tn+".Hash / Marshal")
+			continue
+		}
+		recv := ssa.Value(hash.Params[0])
+		// 1. Marshal is called on the receiver itself
+		var mcalls []*ssa.Call
+		okRecv := true
+		for _, ci := range callsIn(hash, named(HG+"."+tn+".Marshal")) {
+			c, isCall := ci.(*ssa.Call)
+			if !isCall {
+				continue
+			}
+			mcalls = append(mcalls, c)
+			if len(c.Call.Args) == 0 || unwrap(c.Call.Args[0]) != recv {
+				okRecv = false
+			}
+		}
+		// 2. every SHA256 in Hash digests exactly those bytes
+		sha := callsIn(hash, named("src/crypto.SHA256"))
+		okSha := len(sha) > 0
+		for _, s := range sha {
+			a := s.Common().Args[0]
+			mc, idx := callOf(a)
+			found := false
+			for _, c := range mcalls {
+				if mc == c && idx == 0 {
+					found = true
+				}
+			}
+			if !found {
+				okSha = false
+			}
+		}
+		// 3. what is returned is the digest (or the memo field written only with the digest)
+		okRet := true
+		for _, b := range hash.Blocks {
+			ret, isRet := b.Instrs[len(b.Instrs)-1].(*ssa.Return)
+			if !isRet || len(ret.Results) == 0 {
+				continue
+			}
+			v := ret.Results[0]
+			if isNilOrEmpty(v) {
+				continue
+			}
+			fromSha := func(x ssa.Value) bool {
+				return dependsOn(x, func(y ssa.Value) bool { _, _, ok := isCallTo(y, named("src/crypto.SHA256")); return ok })
+			}
+			if fromSha(v) {
+				continue
+			}
+			// memo field: all module writers store a digest
+			if fv, _ := fieldOf(v); fv != nil {
+				all := true
+				nw := 0
+				for _, w := range p.writersOf(fv) {
+					st, isSt := w.Instr.(*ssa.Store)
+					if !isSt {
+						all = false
+						continue
+					}
+					nw++
+					if !fromSha(st.Val) && !isNilOrEmpty(st.Val) {
+						all = false
+					}
+				}
+				if all && nw > 0 {
+					continue
+				}
+			}
+			okRet = false
+		}
+		r.Check(len(mcalls) > 0 && okRecv && okSha && okRet, rule, tn+".Hash:covers-receiver", p.pos(hash.Pos()), fnName(hash),
+			"Hash() = SHA256(receiver.Marshal())",
+			fmt.Sprintf("%s.Hash() does not digest the whole receiver (Marshal called on the receiver itself: %v, SHA256 over exactly those bytes: %v, returned value is that digest: %v): whatever is left out can be changed without changing the hash that signatures and fast-forward equality tests rely on", tn, len(mcalls) > 0 && okRecv, okSha, okRet))
+		// 4. Marshal encodes the receiver
+		mrecv := ssa.Value(marsh.Params[0])
+		nEnc, okEnc := 0, true
+		for _, b := range marsh.Blocks {
+			for _, in := range b.Instrs {
+				c, isCall := in.(*ssa.Call)
+				if !isCall {
+					continue
+				}
+				f := calleeFunc(c.Common())
+				if f == nil || f.Name() != "Encode" || f.Pkg() == nil || strings.HasPrefix(f.Pkg().Path(), modPath) {
+					continue
+				}
+				nEnc++
+				arg := c.Call.Args[len(c.Call.Args)-1]
+				if unwrap(arg) != mrecv {
+					okEnc = false
+				}
+			}
+		}
+		r.Check(nEnc > 0 && okEnc, rule, tn+".Marshal:encodes-receiver", p.pos(marsh.Pos()), fnName(marsh), "Encode(receiver)", tn+".Marshal() does not hand the receiver itself to the encoder: the bytes that are hashed / signed are not the value's")
+		// 5. no hidden field among the exported ones (unexported fields are derived caches: listed)
+		if t := p.Type(HG, tn); t != nil {
+			if st, isSt := t.Underlying().(*types.Struct); isSt {
+				var hidden, caches []string
+				for i := 0; i < st.NumFields(); i++ {
+					f := st.Field(i)
+					tag := st.Tag(i)
+					if f.Exported() && (strings.Contains(tag, `json:"-"`) || strings.Contains(tag, `codec:"-"`)) {
+						hidden = append(hidden, f.Name())
+					}
+					if !f.Exported() {
+						caches = append(caches, f.Name())
+					}
+				}
+				r.Check(len(hidden) == 0, rule, tn+":no-hidden-field", p.pos(hash.Pos()), "", "no exported field excluded by a struct tag", "exported fields of "+tn+" are excluded from the encoding (and hence from the hash) by a struct tag: "+strings.Join(hidden, ", "))
+				if len(caches) > 0 {
+					r.Note("%s: %s has unexported (never encoded, derived) fields: %s", rule, tn, strings.Join(caches, ", "))
+				}
+			}
+		}
+	}
+}
+
+func isNilOrEmpty(v ssa.Value) bool {
+	c, ok := unwrap(v).(*ssa.Const)
+	return ok && (c.IsNil() || c.Value == nil || c.Value.String() == `""`)
 }
